@@ -183,6 +183,7 @@ theorem Step.nodes_subBuilt (s : Step) (h : s.subSupported = true) :
     | sumall => exact absurd h (by simp [Step.subSupported, BatchFn.supported])
     | droplast => exact absurd h (by simp [Step.subSupported, BatchFn.supported])
     | dupfirst => exact absurd h (by simp [Step.subSupported, BatchFn.supported])
+    | countrow => exact absurd h (by simp [Step.subSupported, BatchFn.supported])
   | mapValues f => exact nodes_elementwise _ _ rfl trivial
   | filterValues p => exact nodes_elementwise _ _ rfl trivial
   | mapValuesBatches n f =>
@@ -192,6 +193,7 @@ theorem Step.nodes_subBuilt (s : Step) (h : s.subSupported = true) :
     | sumall => exact absurd h (by simp [Step.subSupported, BatchFn.supported])
     | droplast => exact absurd h (by simp [Step.subSupported, BatchFn.supported])
     | dupfirst => exact absurd h (by simp [Step.subSupported, BatchFn.supported])
+    | countrow => exact absurd h (by simp [Step.subSupported, BatchFn.supported])
   | unkey => exact nodes_elementwise _ _ rfl trivial
   | swapkv => exact nodes_elementwise _ _ rfl trivial
   | values => exact nodes_elementwise _ _ rfl trivial
